@@ -71,7 +71,8 @@ Body(c, idoc, qs) == <<"docstring">> \o (CASE c.fmt \in {"class", "pydantic"} ->
 
 VARIABLES cfg, ps, pc, obs, idoc, body
 vars == <<cfg, ps, pc, obs, idoc, body>>
-Cfgs == {c \in [fmt : {Fmts[k] : k \in 1..4}, style : Styles, kwonly : BOOLEAN] : c.fmt # "function" => c.kwonly}
+\* edd = emit_default_doc: the default is ALSO written into the description -- it must not change what the program exposes
+Cfgs == {c \in [fmt : {Fmts[k] : k \in 1..4}, style : Styles, kwonly : BOOLEAN, edd : BOOLEAN] : c.fmt # "function" => c.kwonly}
 RECURSIVE SetToSeq(_)
 SetToSeq(S) == IF S = {} THEN <<>> ELSE LET x == CHOOSE x \in S : TRUE IN <<x>> \o SetToSeq(S \ {x})
 CfgSeq == SetToSeq(Cfgs)
